@@ -77,11 +77,40 @@ class ConvP(_Base):
             e = self.block(op.false_region.block) if op.false_region.blocks else []
             return ["if", c, t, e]
         if isinstance(op, scf.ForOp):
-            if op.results:
-                raise Unsupported("scf.for with iter_args before tracing")
+            if any(not self.is_statev(r) for r in op.results):
+                raise Unsupported("scf.for with data iter_args")
             lb, ub, st = self.use(op.lb), self.use(op.ub), self.use(op.step)
             iv = self.var(op.body.block.args[0])
-            return ["for", lb, ub, st, iv, self.block(op.body.block)]
+            if not op.results:
+                return ["for", lb, ub, st, iv, self.block(op.body.block)]
+            # a loop that ALREADY carries state values (pre-existing threading)
+            from snaxc.inference.helpers import find_all_acc_names_in_region
+            inside = find_all_acc_names_in_region(op.body)
+            accs = [r.type.accelerator.data for r in op.results]
+            if len(set(accs)) != len(accs):
+                raise Unsupported("pre-threaded scf.for carrying two states of one accelerator")
+            if any(a not in inside for a in accs):
+                raise Unsupported("pre-threaded scf.for carrying the state of an accelerator it does not set up")
+            inits = []
+            for v in op.iter_args:
+                if v not in self.sid:
+                    raise Unsupported("pre-threaded scf.for: init state is not a known state value")
+                inits.append(self.sid[v])
+            args = []
+            for a in op.body.block.args[1:]:
+                self.sid[a] = len(self.sid)
+                args.append(self.sid[a])
+            body = self.block(op.body.block)
+            ylds = []
+            for v in op.body.block.last_op.operands:
+                if v not in self.sid:
+                    raise Unsupported("pre-threaded scf.for: yielded state is not a known state value")
+                ylds.append(self.sid[v])
+            car = []
+            for i, r in enumerate(op.results):
+                self.sid[r] = len(self.sid)
+                car.append([self.acc(accs[i]), args[i], inits[i], ylds[i], self.sid[r]])
+            return ["for", lb, ub, st, iv, body, car]
         if isinstance(op, (scf.YieldOp, func.ReturnOp)):
             return None
         raise Unsupported(op.name)
@@ -160,13 +189,17 @@ class ConvL(_Base):
             lb, ub, st = self.use(op.lb), self.use(op.ub), self.use(op.step)
             iv = self.var(op.body.block.args[0])
             inits = [self.ref(v) for v in op.iter_args]
-            args = [self.new(a) for a in op.body.block.args[1:]]
-            if len(args) != len(inits) or len(args) != len(op.results):
+            bargs = list(op.body.block.args[1:])
+            if len(bargs) != len(inits) or len(bargs) != len(op.results):
                 raise Unsupported("scf.for with inconsistent iter_args / block arguments / results")
+            # canonical order = by accelerator (the real pass: existing block arguments first, then created ones by name)
+            order = sorted(range(len(bargs)), key=lambda i: (self.acc(bargs[i].type.accelerator.data), i))
+            args = {i: self.new(bargs[i]) for i in order}
             body = self.block(op.body.block)
             ylds = [self.ref(v) for v in op.body.block.last_op.operands]
             car = []
-            for i, r in enumerate(op.results):
+            for i in order:
+                r = op.results[i]
                 car.append([self.acc(r.type.accelerator.data), args[i], inits[i], ylds[i], self.new(r)])
             return ["for", lb, ub, st, iv, body, car]
         if isinstance(op, (scf.YieldOp, func.ReturnOp)):
@@ -180,6 +213,82 @@ class ConvL(_Base):
         for i, v in enumerate(self.states):
             out.append([i, self.state_json(v.type.accelerator.data, infer_state_of(v))])
         return out
+
+
+import random
+import re
+
+_FOR_RE = re.compile(r'^(\s*)scf\.for (%\w+) = (%\w+) to (%\w+) step (%\w+) \{$')
+_PRE_FOR_RE = re.compile(r'scf\.for .*iter_args\(.*\) -> \(.*!accfg\.state')
+
+
+def has_prethreaded_loop(src: str) -> bool:
+    """the named clause NoPreThreadedLoops on the INPUT: some scf.for already carries a state value"""
+    return any(_PRE_FOR_RE.search(l) for l in src.split("\n"))
+
+
+def prethread_loops(src: str, rng: random.Random, nloops=2):
+    """Text transformation of a generated (untraced) program: up to `nloops` loops get a PRE-EXISTING loop-carried state of one
+    accelerator X they set up at the top level of their body: iter_args(arg = <a setup of X in front of the loop, mostly the
+    latest>), the first top-level setup of X in the body linked `from arg`, `scf.yield <a top-level setup of X of the body, mostly
+    the last>`. Calls / control flow in between make these links stale -- the tracer has to cope (C07: pre-existing partially
+    threaded state)."""
+    lines = src.split("\n")
+    done = 0
+    for _ in range(6):
+        if done >= nloops:
+            break
+        loops = [i for i, l in enumerate(lines) if _FOR_RE.match(l)]
+        rng.shuffle(loops)
+        for i in loops:
+            ind, iv, lb, ub, st = _FOR_RE.match(lines[i]).groups()
+            j = next((k for k in range(i + 1, len(lines)) if lines[k] == ind + "}"), None)
+            if j is None:
+                continue
+            inner = ind + "  "
+            body_setups = [(k, m) for k in range(i + 1, j) if (m := ac._SETUP_RE.match(lines[k])) and m.group(1) == inner]
+            if not body_setups:
+                continue
+            acc = rng.choice(sorted({m.group(3) for _, m in body_setups}))
+            mine = [(k, m) for k, m in body_setups if m.group(3) == acc]
+            before = []
+            k = i - 1
+            while k >= 0 and (lines[k].startswith(ind) or not lines[k].strip()):
+                m = ac._SETUP_RE.match(lines[k])
+                if m and m.group(1) == ind and m.group(3) == acc:
+                    before.append(m.group(2))
+                k -= 1
+            if not before:
+                continue
+            init = before[0] if rng.random() < 0.8 else rng.choice(before)
+            yk, ym = mine[-1] if rng.random() < 0.8 else rng.choice(mine)
+            u = rng.randrange(10 ** 6)
+            arg, res = f"%pa{u}", f"%pr{u}"
+            ty = ac.st_ty(acc)
+            fk, fm = mine[0]
+            if rng.random() < 0.85:
+                ind_, name, acc_, frm, params, ty_ = fm.groups()
+                lines[fk] = f'{ind_}{name} = accfg.setup "{acc}" from {arg} to ({params}) : {ty_}'
+            lines[i] = f"{ind}{res} = scf.for {iv} = {lb} to {ub} step {st} iter_args({arg} = {init}) -> ({ty}) {{"
+            lines.insert(j, f"{inner}scf.yield {ym.group(2)} : {ty}")
+            if rng.random() < 0.25:
+                # an unannotated call behind the yielded setup: the (pre-existing) yield is stale
+                lines.insert(j, f"{inner}func.call @g() : () -> ()")
+                j += 1
+            # the next setup of X behind the loop may already be linked to the loop result
+            for k in range(j + 2, len(lines)):
+                if not lines[k].startswith(ind) or lines[k] == ind[:-2] + "}":
+                    break
+                m = ac._SETUP_RE.match(lines[k])
+                if m and m.group(1) == ind and m.group(3) == acc:
+                    if not m.group(4) and rng.random() < 0.5:
+                        lines[k] = f'{ind}{m.group(2)} = accfg.setup "{acc}" from {res} to ({m.group(5)}) : {m.group(6)}'
+                    break
+            done += 1
+            break
+        else:
+            break
+    return "\n".join(lines)
 
 
 def canon_states(lst):
